@@ -398,7 +398,7 @@ def r08_4(ctx, rep):
 
 def r08_6(ctx, rep):
     # chunk-creating function = the body containing OpenOptions::create_new(true)
-    creators = {b["key"] for b, bi, t in ctx.all_calls(r"fs::OpenOptions::create_new$")}
+    creators = chunk_creators(ctx)
     if not rep.expect("R08.6", "chunk-creating function", len(creators) == 1, "expected exactly one body calling OpenOptions::create_new, found %s" % sorted(creators)):
         return
     ck = list(creators)[0]
